@@ -4,7 +4,7 @@ from typing import Callable, Dict, List, Optional, Set, Tuple
 
 from .model import AnalysisError, FunctionInfo, Program, walk_function, parent, ancestors
 from .cfg import CFG, conj_atoms, expr_guards
-from .guards import (Copies, norm, card_admitted, name_subject, isinstance_atom, known_instance,
+from .guards import (Alpha, Copies, norm, card_admitted, name_subject, isinstance_atom, known_instance,
                      tag_equalities, call_name, const_str, Unknown, card_eval, CARD)
 
 MUTATORS = {'append', 'extend', 'insert', 'pop', 'remove', 'clear', 'update', 'setdefault', 'popitem', 'sort',
@@ -22,6 +22,7 @@ class Fn:
         self.node = fi.node
         self.cfg: CFG = fi.cfg()
         self.copies = Copies(fi.node)
+        self.alpha = Alpha(fi.node)
         self._changes: Dict[str, Set[int]] = {}
 
     def key(self, what: str = '') -> str:
